@@ -72,6 +72,7 @@ type c14Input struct {
 	Unset      bool    `json:"unset,omitempty"`      // delegate-v3: MaxServiceWorkers left at 0 (Workers then holds the default that applies)
 	Queue      int     `json:"queue,omitempty"`      // runner: WorkerQueueLength (!= Workers)
 	Trace      bool    `json:"trace,omitempty"`      // record the verif hook events of the run (needs the hooks in /repo: c14_trace_test.go)
+	Ops        []c14Op `json:"ops,omitempty"`        // direct: the calls on the group's exported API / on a util.Queue, in order (c14_direct_test.go)
 }
 
 type c14Caller struct {
@@ -95,6 +96,7 @@ type c14Impl struct {
 	Crashed    bool        `json:"crashed"`    // the child process died while running this case
 	Panic      string      `json:"panic,omitempty"`
 	Events     []c14Ev     `json:"events,omitempty"` // the hook calls of the run, in log order (trace cases only)
+	Outs       []c14Out    `json:"outs,omitempty"`   // direct cases: the outcome of every call
 }
 
 // c14Ev is one call of an instrumentation hook: the point and up to two numbers (caller index,
@@ -282,6 +284,9 @@ func c14BubbleGoroutines() int {
 // c14Run executes one case on the real worker group.  `verdict` is called with the
 // observations as soon as the deadlock verdict is known and before anything is released.
 func c14Run(t *testing.T, in c14Input, verdict func(c14Impl)) (impl c14Impl) {
+	if in.Via == "direct" {
+		return c14RunDirect(t, in)
+	}
 	if in.Via == "delegate-v3" {
 		return c14RunDelegate(t, in, verdict)
 	}
@@ -1038,6 +1043,14 @@ func c14Cases(t *testing.T) (cases []c14Case, dist map[string]int) {
 	for i, nr := 0, tierN(200, 3000); i < nr; i++ {
 		cases = append(cases, c14Case{"gen-runner", c14GenRunner(r3)})
 	}
+	// the group's exported API and util.Queue driven call by call (store-after-RemoveGroup, Pop on empty)
+	for _, in := range c14DirectEdge() {
+		cases = append(cases, c14Case{"edge-direct", in})
+	}
+	r7 := NewRng(seed() + 0xd1ec)
+	for i, nd := 0, tierN(400, 6000); i < nd; i++ {
+		cases = append(cases, c14Case{"gen-direct", c14GenDirect(r7)})
+	}
 	if c14TraceBegin != nil {
 		// trace validation subset: smaller runs (a trace has ~30 events per job), own random stream so
 		// that the cases above are the same with and without the hooks
@@ -1085,6 +1098,11 @@ func c14Cases(t *testing.T) (cases []c14Case, dist map[string]int) {
 		}
 		if len(in.Mercury) > 1 {
 			dist["v2-request-flags"]++
+		}
+		if in.Via == "direct" {
+			dist["via=direct"]++
+			dist[fmt.Sprintf("direct:calls=%d", bucket(len(in.Ops)))]++
+			continue
 		}
 		if in.Via != "" {
 			dist["via="+in.Via]++
